@@ -1845,6 +1845,10 @@ func (ci *connInfo) protoWriter(sess BackendSession) {
 			if !more {
 				return
 			}
+			if message == nil {
+				// not a message: sendRejectMessage waiting until the previous one has been written
+				continue
+			}
 			err := sess.Send(message)
 			if err != nil {
 				if ci.Context.Err() == nil {
@@ -1902,6 +1906,14 @@ func (s *Netceptor) sendRejectMessage(ci *connInfo) {
 		select {
 		case <-ci.Context.Done():
 		case ci.WriteChan <- rejMsg:
+			// The caller returns and closes the session next.  protoWriter takes from WriteChan
+			// again only after it has written the message it holds, so handing it one more
+			// (empty, skipped) item waits until the rejection is really on the wire.
+			select {
+			case <-ci.Context.Done():
+			case <-time.After(time.Second):
+			case ci.WriteChan <- nil:
+			}
 		}
 	}
 }
